@@ -83,6 +83,7 @@ def build_history(sums, n, tagp='c'):
     return shipped, cyc, f
 
 def check(R, tier):
+    R.fallback_kinds = {'rollback'}
     I = R.interp('tough'); install_world(I)
     hops = 1
     ncyc = (2, 3) if tier == 'quick' else (2, 3, 4)
